@@ -881,7 +881,9 @@ def run(chk: Check, args):
         'driver always aborts with a reason, as the library does',
         'the shelve backend is whatever dbm.open picks in the venv (dbm.dumb here); file sizes stay below 2^31 in traces',
         'scheduling is observed with free upload slots, users of unknown status and a peer that acknowledges '
-        'PeerTransferQueue and never answers PeerTransferRequest; cycles are observed at loop quiescence',
+        'PeerTransferQueue and never answers PeerTransferRequest; cycles are observed at loop quiescence; what a '
+        'cycle does with a QUEUED upload whose previous attempt is still in flight (and with that user\'s other '
+        'queued uploads) is left to C06 - loaded transfers never have an attempt in flight, so for them the rule is exact',
         'cache files of older releases are produced by the harness with the pinned key scheme '
         'sha256(username+remote_path+direction) and, for fmt=legacy, the field set of the repository fixture',
     ]
